@@ -325,6 +325,56 @@ def g_reserved_formats(R, tier):
             repr(fixed), backend="exhaustive-finite")
 
 
+def g_state_names_are_fresh(R, tier):
+    """the reserved names that live as long as a namespace or a loop (return slot, return flag,
+    cell dict, class dict, break/interrupt flags, wrapped iterator) are created by ol_name() in
+    the constructor of that very object: one name per object, never derived from user text (a
+    function's name, a line number ...) and never shared between objects.  REAL constructors."""
+    from suites import c06 as _c06
+    from contracts import c_lowering as CL
+    from olvc.evaluator import Machine
+    from olvc.runner import explore
+    ns = _c06.NS()
+    pn = CL.pn()
+    cases = []
+    for kind, cls in (("function", ns.NamespaceFunction), ("class", ns.NamespaceClass)):
+        def mk(m, kind=kind, cls=cls):
+            symt = _c06.mk_symt("T", name="userchosen", symbols={}, frees=[], nonlocals=[], kind=kind)
+            return m.call_value(cls, symt, [_c06.mk_scope("G", "global")])
+        cases.append((f"namespaces.Namespace{kind.capitalize()}.__init__", mk))
+    for lname, lcls, node in (("PendingWhile", pn.PendingWhile, lambda: ast.While(test=CL.src("t"), body=[], orelse=[], lineno=3, col_offset=0)),
+                              ("PendingFor", pn.PendingFor, lambda: ast.For(target=ast.Name(id="i", ctx=ast.Store()), iter=CL.src("it"), body=[], orelse=[], lineno=3, col_offset=0))):
+        def mk(m, lcls=lcls, node=node):
+            return CL.mk_pending(lcls, node(), CL.mk_nsp(), CL.mk_global(), m=m)
+        cases.append((f"pending_nodes.{lname}.__init__", mk))
+    for nm, mk in cases:
+        def run(c, mk=mk):
+            m = Machine(stubs={"oneliner.reserved_identifiers:ol_name": CL.stub_ol_name(), "oneliner.expr_transform:expr_transf": CL.stub_expr_transf()})
+            lo = len(getattr(c, "ol_created", ()))
+            a = mk(m)
+            mid = len(getattr(c, "ol_created", ()))
+            b = mk(m)
+            return dict(a=a, b=b, own_a=list(getattr(c, "ol_created", ())[lo:mid]), own_b=list(getattr(c, "ol_created", ())[mid:]))
+        for p in explore(run):
+            if p.kind != "ok":
+                R.undecided(f"{nm}/state-names", repr(p.value))
+                continue
+            v = p.value
+            bad = []
+            names_a = {}
+            for obj, own, tag_ in ((v["a"], v["own_a"], "first"), (v["b"], v["own_b"], "second")):
+                for k_, x_ in vars(obj).items() if not isinstance(obj, Opaque) else obj.fields.items():
+                    if isinstance(x_, ast.Name):
+                        ok_ = isinstance(x_.id, Hole) and any(x_.id is h for h in own)
+                        if not ok_:
+                            bad.append(f"{tag_}.{k_} = {x_.id!r} was not created by ol_name() in this constructor")
+                        if tag_ == "first":
+                            names_a[k_] = x_.id
+                        elif k_ in names_a and name_key(names_a[k_]) == name_key(x_.id):
+                            bad.append(f"{k_}: two objects share the name {name_key(x_.id)}")
+            R.check(f"{nm}/every-state-name-is-a-fresh-name-of-this-object", not bad, "; ".join(bad)[:500], replay=dict(kind="temps"))
+
+
 def g_ol_name_call_sites(R, tier):
     """precondition of the freshness contract of ol_name(fmt): fmt has a slot for the unique
     id (a constant format gives the same name on every call).  Every call site in the package
@@ -359,7 +409,7 @@ def g_ol_name_call_sites(R, tier):
         R.check(f"reserved_identifiers.ol_name[{nm}]/two-calls-give-two-names", a != b and a.startswith("__ol_") and b.startswith("__ol_"), f"{a!r} {b!r}", backend="ground", replay=dict(kind="temps"))
 
 
-GROUPS = {"ol_name_call_sites": g_ol_name_call_sites, "hygiene": g_hygiene, "reserved_formats": g_reserved_formats, "fresh_names": c10.g_fresh_names, "canary": c13.g_canary}
+GROUPS = {"state_names_are_fresh": g_state_names_are_fresh, "ol_name_call_sites": g_ol_name_call_sites, "hygiene": g_hygiene, "reserved_formats": g_reserved_formats, "fresh_names": c10.g_fresh_names, "canary": c13.g_canary}
 NO_FRAME_GROUPS = ("hygiene",)
 
 CAPTURE_PROGRAMS = {
@@ -390,6 +440,7 @@ def replay_capture(rp):
 
 
 TEMP_PROGRAMS = [
+    "def f():\n    a = 1\n    def f():\n        b = 2\n        def g():\n            return a, b\n        return g()\n    return f()\nr = f()\n",
     "def a():\n    x = 1\n    def b():\n        y = 'b'\n        def c():\n            nonlocal x\n            x = 2\n            return x, y\n        return c()\n    return b(), x\nr = a()\n",
     "(k, v), it = (1, 2), 3\n_, __ = self = [10, 20]\na, (b, (c, d)), e = 1, (2, (3, 4)), 5\nr = (k, v, it, _, __, self, a, b, c, d, e)\n",
     "def outer(c):\n    c.tags = getattr(c, 'tags', ()) + ('outer',)\n    return c\ndef inner(c):\n    c.tags = getattr(c, 'tags', ()) + ('inner',)\n    return c\n"
